@@ -23,7 +23,8 @@ pub enum Op {
 pub struct HistCase {
     pub n: u8,
     pub equal_sizes: bool,
-    /// 0 = ShapeReader with index, 1 = complete Reader (shp+shx+dbf), 2 = ShapeReader without index
+    /// 0 = ShapeReader with index, 1 = complete Reader (shp+shx+dbf), 2 = ShapeReader without index,
+    /// 3 = ShapeReader::from_path (files on disk), 4 = Reader::from_path
     pub reader: u8,
     pub ops: Vec<Op>,
 }
@@ -152,6 +153,47 @@ fn take_items<I: Iterator<Item = Result<Option<usize>, String>>>(mut it: I, j: u
     (out, ended)
 }
 
+fn drive_shape_reader<T: std::io::Read + std::io::Seek>(mut r: ShapeReader<T>, with_index: bool, c: &HistCase, n: usize, model: &mut Model) -> Result<(), Fail> {
+    let whole = |ops: &[Op], k: usize| format!("history {:?} (failing at op #{})", ops, k);
+    for (k, op) in c.ops.iter().enumerate() {
+        match op {
+            Op::Count => {
+                if with_index {
+                    ensure!(r.shape_count().ok() == Some(n), "count-changes", "{}: shape_count = {:?}", whole(&c.ops, k), r.shape_count().ok());
+                }
+            }
+            Op::Seek(x) => {
+                r.seek(*x as usize).map_err(|e| Fail::new("seek-error", format!("{}: {}", whole(&c.ops, k), err_str(&e))))?;
+                model.pos = vec![(*x as usize).min(n)];
+                model.exact = true;
+            }
+            Op::Nth(i) => {
+                let i = *i as usize;
+                match r.read_nth_shape(i) {
+                    None => ensure!(i >= n, "nth-wrong", "{}: read_nth_shape({}) is None with {} records", whole(&c.ops, k), i, n),
+                    Some(Ok(s)) => {
+                        ensure!(i < n && ident(&s) == Some(i), "nth-wrong", "{}: read_nth_shape({}) returned record {:?}", whole(&c.ops, k), i, ident(&s));
+                        model.pos = vec![0];
+                        model.exact = true;
+                    }
+                    Some(Err(e)) => fail!("nth-wrong", "{}: read_nth_shape({}): {}", whole(&c.ops, k), i, err_str(&e)),
+                }
+            }
+            Op::Iter(j) => {
+                let it = r.iter_shapes().map(|x| match x {
+                    Ok(s) => Ok(ident(&s)),
+                    Err(e) => Err(err_str(&e)),
+                });
+                let (items, ended) = take_items(it, *j, n);
+                if let Err(m) = model.iterate(&items, ended) {
+                    fail!("iteration-sequence", "{}: {}", whole(&c.ops, k), m);
+                }
+            }
+        }
+    }
+    Ok(())
+}
+
 pub struct Histories;
 
 impl Prop for Histories {
@@ -162,7 +204,7 @@ impl Prop for Histories {
     fn rule() -> &'static str {
         "bounded-exhaustive: every sequence of length <= L (quick 5, thorough 6; complete Reader and index-less reader: one more) over \
          {iterate j items (j=0,1,2,all), read_nth(i) i in 0..=n, seek(k) k in 0..=n, shape_count} on ShapeReader::with_shx; {iterate j \
-         pairs, seek(k), shape_count} on the complete Reader (rows carry their index); {iterate j} on a reader without index; files with \
+         pairs, seek(k), shape_count} on the complete Reader (rows carry their index); {iterate j} on a reader without index; the ShapeReader and Reader histories also through from_path on real files (one op shorter); files with \
          n=3 (thorough also 4) records of pairwise different sizes and of equal sizes. Oracle: reference state machine (read_nth(i) -> \
          record i / None; count constant; iteration after open / successful read_nth / seek(k) yields exactly 0.. / 0.. / k.. then ends; \
          a further iteration yields the not-yet-consumed records or all records from the first; rows stay aligned). \
@@ -194,7 +236,9 @@ impl Prop for Histories {
         ctx.class(match c.reader {
             0 => "ShapeReader+shx",
             1 => "Reader",
-            _ => "ShapeReader-noshx",
+            2 => "ShapeReader-noshx",
+            3 => "ShapeReader::from_path",
+            _ => "Reader::from_path",
         });
         let whole = |ops: &[Op], k: usize| format!("history {:?} (failing at op #{})", ops, k);
         match c.reader {
@@ -238,56 +282,65 @@ impl Prop for Histories {
                     }
                 }
             }
+            3 | 4 => {
+                // the same histories through files on disk (ShapeReader::from_path / Reader::from_path: BufReader<File>)
+                let dir = crate::common::scratch_dir();
+                let p = dir.join(format!("c15-{}-{}.shp", n, c.equal_sizes as u8));
+                if !p.exists() || std::fs::metadata(&p).map(|m| m.len()).unwrap_or(0) != shp.len() as u64 {
+                    std::fs::write(&p, &shp).map_err(|e| Fail::new("disk-io", e.to_string()))?;
+                    std::fs::write(p.with_extension("shx"), &shx).map_err(|e| Fail::new("disk-io", e.to_string()))?;
+                    std::fs::write(p.with_extension("dbf"), &dbf).map_err(|e| Fail::new("disk-io", e.to_string()))?;
+                }
+                if c.reader == 3 {
+                    let r = ShapeReader::from_path(&p).map_err(|e| Fail::new("open-error", err_str(&e)))?;
+                    drive_shape_reader(r, true, c, n, &mut model)?;
+                } else {
+                    let mut r = Reader::from_path(&p).map_err(|e| Fail::new("open-error", err_str(&e)))?;
+                    for (k, op) in c.ops.iter().enumerate() {
+                        match op {
+                            Op::Count => ensure!(r.shape_count().ok() == Some(n), "count-changes", "{}: shape_count = {:?}", whole(&c.ops, k), r.shape_count().ok()),
+                            Op::Seek(x) => {
+                                r.seek(*x as usize).map_err(|e| Fail::new("seek-error", format!("{}: {}", whole(&c.ops, k), err_str(&e))))?;
+                                model.pos = vec![(*x as usize).min(n)];
+                                model.exact = true;
+                            }
+                            Op::Iter(j) => {
+                                let mut misaligned: Option<String> = None;
+                                let it = r.iter_shapes_and_records().map(|x| match x {
+                                    Ok((s, rec)) => {
+                                        let si = ident(&s);
+                                        let ri = match rec.get("idx") {
+                                            Some(dbase::FieldValue::Numeric(Some(v))) => Some(*v as usize),
+                                            _ => None,
+                                        };
+                                        if si != ri {
+                                            misaligned = Some(format!("shape {:?} paired with row {:?}", si, ri));
+                                        }
+                                        Ok(si)
+                                    }
+                                    Err(e) => Err(err_str(&e)),
+                                });
+                                let (items, ended) = take_items(it, *j, n);
+                                if let Some(m) = misaligned {
+                                    fail!("pairs-misaligned", "{}: {}", whole(&c.ops, k), m);
+                                }
+                                if let Err(m) = model.iterate(&items, ended) {
+                                    fail!("iteration-sequence", "{}: {}", whole(&c.ops, k), m);
+                                }
+                            }
+                            Op::Nth(_) => {}
+                        }
+                    }
+                }
+            }
             rk => {
-                let mut r = if rk == 0 {
+                let r = if rk == 0 {
                     ShapeReader::with_shx(Cursor::new(shp), Cursor::new(shx))
                 } else {
                     ShapeReader::new(Cursor::new(shp))
                 }
                 .map_err(|e| Fail::new("open-error", err_str(&e)))?;
-                for (k, op) in c.ops.iter().enumerate() {
-                    match op {
-                        Op::Count => {
-                            if rk == 0 {
-                                ensure!(r.shape_count().ok() == Some(n), "count-changes", "{}: shape_count = {:?}", whole(&c.ops, k), r.shape_count().ok());
-                            }
-                        }
-                        Op::Seek(x) => {
-                            r.seek(*x as usize).map_err(|e| Fail::new("seek-error", format!("{}: {}", whole(&c.ops, k), err_str(&e))))?;
-                            model.pos = vec![(*x as usize).min(n)];
-                            model.exact = true;
-                        }
-                        Op::Nth(i) => {
-                            let i = *i as usize;
-                            match r.read_nth_shape(i) {
-                                None => ensure!(i >= n, "nth-wrong", "{}: read_nth_shape({}) is None with {} records", whole(&c.ops, k), i, n),
-                                Some(Ok(s)) => {
-                                    ensure!(
-                                        i < n && ident(&s) == Some(i),
-                                        "nth-wrong",
-                                        "{}: read_nth_shape({}) returned record {:?}",
-                                        whole(&c.ops, k),
-                                        i,
-                                        ident(&s)
-                                    );
-                                    model.pos = vec![0];
-                                    model.exact = true;
-                                }
-                                Some(Err(e)) => fail!("nth-wrong", "{}: read_nth_shape({}): {}", whole(&c.ops, k), i, err_str(&e)),
-                            }
-                        }
-                        Op::Iter(j) => {
-                            let it = r.iter_shapes().map(|x| match x {
-                                Ok(s) => Ok(ident(&s)),
-                                Err(e) => Err(err_str(&e)),
-                            });
-                            let (items, ended) = take_items(it, *j, n);
-                            if let Err(m) = model.iterate(&items, ended) {
-                                fail!("iteration-sequence", "{}: {}", whole(&c.ops, k), m);
-                            }
-                        }
-                    }
-                }
+                drive_shape_reader(r, rk == 0, c, n, &mut model)?;
             }
         }
         Ok(())
@@ -364,6 +417,13 @@ impl EnumProp for Histories {
                 }
                 for l in 1..=len + 2 {
                     blocks.push(Block { n, equal, reader: 2, alphabet: a2.clone(), len: l });
+                }
+                // files on disk: one length shorter (each history opens real files)
+                for l in 1..=len - 1 {
+                    blocks.push(Block { n, equal, reader: 3, alphabet: a0.clone(), len: l });
+                }
+                for l in 1..=len {
+                    blocks.push(Block { n, equal, reader: 4, alphabet: a1.clone(), len: l });
                 }
             }
         }
